@@ -21,6 +21,9 @@ const pkgCapPolicy = "pkg/scheduler/plugins/proportion/capacity_policy"
 var queueLinkFields = map[string]bool{"ParentQueue": true}
 
 func runC08(c *Ctx) {
+	borrow(c, "O7", "C13", "O5", "Commit does not call Discard", "undoing already committed allocations fires the deallocate handlers: the queue and its ancestors are under-counted while the pods get bound")
+	borrow(c, "O8", "C03", "O5", "only active-allocated pods are eviction candidates", "evicting a pod that is already releasing subtracts resources from the queue that were never added")
+
 	p, fx := c.P, c.Fx
 	isSchedFact := func(callName string) func(f Fact) bool {
 		return func(f Fact) bool {
